@@ -104,4 +104,39 @@ def textOf : Val → Option String
           | _ => none
         if items.length = l.length then some (",".intercalate items) else none
 
+/-- Does a (non-string) value have the declared type?  A `bool` is not an `int`; a tuple must have
+    the declared length and item types; `Literal['auto']` is the string `auto`. -/
+def scalarHas : Scalar → Base → Bool
+  | .int _, .int => true
+  | .float _, .float => true
+  | .bool _, .bool => true
+  | .str _, .str => true
+  | .none, .noneT => true
+  | .str t, .lit s => s == t
+  | .other c, .other cls => c == cls
+  | _, _ => false
+
+def itemsHave : List Scalar → List Base → Bool
+  | [], [] => true
+  | x :: xs, b :: bs => scalarHas x b && itemsHave xs bs
+  | _, _ => false
+
+def hasAlt (v : Val) : Alt → Bool
+  | .base b => (match v with
+      | .sc x => scalarHas x b
+      | .space _ => b == .idSpace
+      | .sub _ => b == .idSubspace
+      | .medium _ => b == .medium
+      | .list _ => b == .other "list"
+      | .tuple _ => b == .other "tuple")
+  | .tuple args => (match v with | .tuple xs => itemsHave xs args | _ => false)
+  | .list arg => (match v with | .list xs => xs.all (scalarHas · arg) | _ => false)
+
+def hasType (v : Val) (ty : Ty) : Bool := ty.any (hasAlt v)
+
+/-- The types a native (non-string) value may have for an option: the declared one, or an integer
+    where a float is declared. -/
+def admits (ty : Ty) (v : Val) : Bool :=
+  hasType v ty || (ty == [.base .float] && (match v with | .sc (.int _) => true | _ => false))
+
 end Tup.Spec.Config
